@@ -67,9 +67,14 @@ func genStep(tag string, allowPreds int) c02Step {
 		p := c02Pred{key: keys[i], opKind: vrt.Choice(tag+".op"+strconv.Itoa(i), numOpKinds)}
 		if p.opKind == opLit {
 			// one symbolic content byte (no quote, printable ASCII)
-			c := vrt.Byte(tag + ".lit" + strconv.Itoa(i))
-			vrt.Assume(vrt.And(c >= 'a', c <= 'z'))
-			p.litText = string([]byte{c})
+			// ... or the empty literal: a key whose value is the empty string is still a key
+			if vrt.Bool(tag + ".litempty" + strconv.Itoa(i)) {
+				p.litText = ""
+			} else {
+				c := vrt.Byte(tag + ".lit" + strconv.Itoa(i))
+				vrt.Assume(vrt.And(c >= 'a', c <= 'z'))
+				p.litText = string([]byte{c})
+			}
 		}
 		st.preds = append(st.preds, p)
 	}
@@ -130,7 +135,7 @@ func VerifH_C02_Paths() {
 		steps = append(steps, genStep("s"+strconv.Itoa(i), P))
 	}
 	// value of the operand leaf x (a symbolic 2-byte literal) and of the result node
-	xval := lowerString("xval", 2)
+	xval := lowerString("xval", 2*vrt.Choice("xval-nonempty", 2)) // the operand leaf may be empty
 	rval := lowerString("rval", 2)
 
 	// ---- render
